@@ -149,10 +149,11 @@ def replay_sim(ctx, num, depth):
             lines.append(ln)
             exp.append(exp_of(st))
         # behaviours that did not reach EOF within the depth are replayed without a sweep expectation
-        cases.append(dict(i=len(cases), lines=lines, exp=exp, fail=bool(b[0][1]["fail"])))
+        cases.append(dict(i=len(cases), lines=lines, exp=exp, fail=bool(b[0][1]["fail"]), strict=bool(b[0][1]["strict"])))
     if not cases:
         raise runner.Machinery("no simulated behaviour reached EOF")
     ctx.extra["simulated_behaviours_with_failing_destruction"] = sum(1 for c in cases if c["fail"])
+    ctx.extra["simulated_behaviours_with_failing_destruction_and_warnings_as_errors"] = sum(1 for c in cases if c["fail"] and c["strict"])
     out = run_children(ctx, "replay", cases, "s")
     ctx.evaluations += len(cases)
     for c in cases:
@@ -162,8 +163,8 @@ def replay_sim(ctx, num, depth):
     ctx.sample(dict(direction="spec->code (simulate)", requests=[":".join(l) for l in cases[0]["lines"]]))
     for m in out[:20]:
         ctx.violation("resource tracker: after requests %s%s: %s" % ([":".join(l) for l in m["lines"]],
-                      " (every destruction attempt fails in this run)" if cases[m["i"]].get("fail") else "", m["why"]),
-                      dict(engine="E-PURE", mode="replay", lines=m["lines"], why=m["why"], fail=cases[m["i"]].get("fail")),
+                      (" (every destruction attempt fails in this run%s)" % (", warnings are errors" if cases[m["i"]].get("strict") else "")) if cases[m["i"]].get("fail") else "", m["why"]),
+                      dict(engine="E-PURE", mode="replay", lines=m["lines"], why=m["why"], fail=cases[m["i"]].get("fail"), strict=cases[m["i"]].get("strict")),
                       signature=dict(kind="tracker_replay"))
 
 
